@@ -221,6 +221,23 @@ def monitor_inproc(c):
     return out
 
 
+def monitor_cache(c):
+    """A long-lived reader (one client with its status cache) follows a run that appends its records within one second and dies
+    without compaction: after every append the reported status must be the last persisted one."""
+    out = []
+    if c.get("infra") or not c.get("cache"):
+        return [("driver could not run the cache stream: %s" % c.get("infra"), {"class": "infra"})]
+    for rd in c["cache"]["reads"]:
+        got, want = rd["st"], rd["want"]
+        if rd.get("err") or got is None:
+            out.append(("long-lived reader: GetLatestStatus fails after append #%d: %s" % (rd["after_write"], rd.get("err")), {"class": "cached-reader-error"}))
+        elif got["st"] != want["st"] or table(got) != table(want) or got["req"] != want["req"]:
+            out.append(("a long-lived reader reports %r %s after the run appended status #%d (%r %s) within the same second and died without "
+                        "compaction: the reported status is not the last persisted one"
+                        % (got["text"], table(got), rd["after_write"], want["text"], table(want)), {"class": "stale-cached-status"}))
+    return out
+
+
 def reported_after_death(line):
     """what client.GetLatestStatus makes of a persisted line when nobody answers on the socket (specification side:
     running is shown as failed)"""
